@@ -1,6 +1,7 @@
 /- line-protocol handler for model "range" (C15): Range, conditional GET, HTTP dates.
    Same ops and canonical output as harness/inproc/h_range.c. -/
 import LtVerif.Model.Range
+import LtVerif.Model.RangeWalk
 import LtVerif.Model.Cond304
 namespace Driver
 open LtVerif LtVerif.B LtVerif.Date LtVerif.Range LtVerif.Cond
@@ -43,6 +44,23 @@ def rangeLine : List String → String
       if len ≤ 0 then "bad-op" else
       let rs := parse h len
       rs.foldl (fun acc r => acc ++ s!" {r.1}-{r.2}") (toString rs.length)
+    | _, _ => "bad-op"
+  | ["walk", len, h] =>            -- http_range_parse() as the pointer walk (Model/RangeWalk.lean)
+    match len.toInt?, ofHex h with
+    | some len, some h =>
+      if len ≤ 0 then "bad-op" else
+      let rs := parsePtr h len
+      rs.foldl (fun acc r => acc ++ s!" {r.1}-{r.2}") (toString rs.length)
+    | _, _ => "bad-op"
+  | ["pnext", len, h] =>           -- http_range_parse_next(): range (x = ranges[1] == -1) and returned offset
+    match len.toInt?, ofHex h with
+    | some len, some h =>
+      if len ≤ 0 then "bad-op" else
+      let (r, e) := parseNext h len
+      let off := h.length - e.length
+      match r with
+      | none => s!"x {off}"
+      | some (a, b) => s!"{a}-{b} {off}"
     | _, _ => "bad-op"
   | ["etag", w, e, h] =>
     match w.toNat?, ofHex e, ofHex h with
